@@ -52,19 +52,23 @@ CLAIMED = {
 
 # clauses added in round 7 (appended to the claimed text of the property)
 EXTRA = {
-    'C01': 'namespace snapshot written in the served order; the snapshot cut is serialised against applies (known finding R01z)',
-    'C03': 'delete_logs_from answers Ok only behind the strip request',
+    'C01': 'namespace snapshot written in the served order; the snapshot cut is serialised against applies (known finding R01z); the start-up replay range includes last_applied_log; a full history of 100 entries survives the full-value path',
+    'C03': 'delete_logs_from answers Ok only behind the strip request; while a truncation leaves the recorded end of a re-opened file stale, reads do not use it to leave a file out',
     'C04': 'a short length-prefix peek is end-of-stream only when it is empty',
-    'C06': 'the snapshot install future is serialised with the applies that follow',
-    'C07': 'the live MCP key index is maintained like the rebuilt one',
+    'C05': 'the start-up replay writes no membership / address',
+    'C06': 'the snapshot install future is serialised with the applies that follow; the replay skips no entry after a compaction',
+    'C07': 'the live MCP key index is maintained like the rebuilt one; apply handlers draw from no random source (crate-wide closure); a tmp entry is compared with the applied content',
     'C08': 'a namespace record of an installed snapshot replaces the stored entry (constant-flag propagation into set_namespace)',
-    'C09': 'page arithmetic on request values is total (no checked +,-,* and no unguarded division on page number / size), every write entry point checks that the key survives its stored form, set_tmp_config never replaces an entry',
+    'C09': 'page arithmetic on request values is total (no checked +,-,* and no unguarded division on page number / size), every write entry point checks that the key survives its stored form, set_tmp_config never replaces an entry; applied entry fields reach set_config unchanged',
     'C10': 'the listener notify loop has no early exit',
-    'C13': 'a queued change always supersedes the queued heartbeat copy of the same instance',
-    'C14': 'the cached owner range is kept only when it equals the freshly computed one',
-    'C15': 'a snapshot query is answered with the asking node\'s range too',
-    'C17': 'grants reach the matcher as written and the request path / method as sent',
-    'C18': 'the decoder of the stored user record always hands both namespace lists on',
+    'C11': 'every non-ephemeral removal clears the persistent set',
+    'C12': 'stored flags are kept only for the same owner; a client-requested removal of a copy held for another node is announced; the protect threshold is decided over the answered list',
+    'C13': 'a queued change always supersedes the queued heartbeat copy of the same instance; the own-copy skip of receive_snapshot ignores time stamps; a heartbeat is addressed to the group its parameter names',
+    'C14': 'the cached owner range is kept only when it equals the freshly computed one; a write for a remote owner is never applied locally',
+    'C15': "a snapshot query is answered with the asking node's range too; retry pause below flush period (sibling constants)",
+    'C16': 'a token is valid only behind a deadline check at read time',
+    'C17': 'grants reach the matcher as written and the request path / method as sent; a session is valid only behind a deadline check at read time',
+    'C18': 'the decoder of the stored user record always hands both namespace lists on; the privilege group crosses JSON without loss (derive output)',
     'C19': 'every id answered by the sequence manager is a draw from the key buffer',
     'C20': 'the carry-to-front helper moves every unread byte (interpretation over all (len, start) up to 7 with slice / iterator models)',
 }
